@@ -112,7 +112,7 @@ func (r *Run) selectField(e *Env, base *Val, name string, x *SX) *Val {
 			r.toolErr("%s: no field %s in %v (%s)", e.ctx, name, t, x)
 			return opaque("0")
 		}
-		np := &Ptr{Kind: base.P.Kind, T: base.P.T, Idx: base.P.Idx, Cell: base.P.Cell, Root: base.P.Root, Path: append(append([]int{}, base.P.Path...), p...)}
+		np := &Ptr{Kind: base.P.Kind, T: base.P.T, Idx: base.P.Idx, Cell: base.P.Cell, Root: base.P.Root, Fam: base.P.Fam, Path: append(append([]int{}, base.P.Path...), p...)}
 		ft := fieldType(np.Root, np.Path)
 		if _, isStruct := ft.Underlying().(*types.Struct); isStruct && !isOpaqueNamed(ft) {
 			// keep as pointer for further navigation
@@ -235,7 +235,7 @@ func (r *Run) eval(e *Env, x *SX) *Val {
 			return opaque("0")
 		}
 		et := v.Ty.Underlying().(*types.Slice).Elem()
-		p := &Ptr{Kind: PElem, T: v.Ref, Idx: app("+", v.Off, i), Root: et}
+		p := &Ptr{Kind: PElem, T: v.Ref, Idx: simplifyAdd(v.Off, i), Root: et, Fam: v.Fam}
 		if isByteType(et) {
 			return intVal(app("str.to_code", app("str.at", r.content(e.st, v), i)))
 		}
@@ -277,7 +277,7 @@ func (r *Run) eval(e *Env, x *SX) *Val {
 		}
 		et := v.Ty.Underlying().(*types.Slice).Elem()
 		srt := scalarSort(et)
-		return opaque(app("select", r.heapArr(e.st, sliceArrayName(et, ""), "(Array Int "+srt+")"), v.Ref))
+		return opaque(app("select", r.heapArr(e.st, sliceArrayName(et, "")+v.Fam, "(Array Int "+srt+")"), v.Ref))
 	case "local":
 		if e.fr == nil {
 			r.toolErr("%s: (local ...) outside a function body: %s", e.ctx, x)
